@@ -123,7 +123,20 @@ func ParseSimple(dsn string, target interface{}) error {
 				continue
 			}
 
+			// The part ends with the opening quotation - the value starts
+			// with a space and the closing quotation is in a later part.
+			if strings.Index(part, "="+string(quot)) == len(part)-2 {
+				if len(dsnS) == 0 {
+					return fmt.Errorf("dsn: unterminated quotation in DSN part: %q", part)
+				}
+				part = strings.Join([]string{part, dsnS[0]}, " ")
+				dsnS = dsnS[1:]
+			}
+
 			for part[len(part)-1] != quot {
+				if len(dsnS) == 0 {
+					return fmt.Errorf("dsn: unterminated quotation in DSN part: %q", part)
+				}
 				part = strings.Join([]string{part, dsnS[0]}, " ")
 				dsnS = dsnS[1:]
 			}
@@ -140,7 +153,7 @@ func ParseSimple(dsn string, target interface{}) error {
 		// Remove quotation from value
 		if value != "" {
 			for _, quot := range quotations {
-				if value[0] == quot && value[len(value)-1] == quot {
+				if len(value) > 1 && value[0] == quot && value[len(value)-1] == quot {
 					value = value[1 : len(value)-1]
 				}
 			}
